@@ -615,6 +615,15 @@ theorem getDefault_fr (ro : ROpts) (d : Dflt) (s : St) :
       simp only [optIds]
       exact (copyValue_fr a s).weaken (fun i h => List.mem_append_right _ (by simp [ROpts.opqIds, hf, h])) (fun _ h => h)
 
+theorem getDefaultAt_fr (defer fdefer : Bool) (ro : ROpts) (d : Dflt) (s : St) :
+    Fr (d.opqIds ++ ro.opqIds) s (getDefaultAt defer fdefer ro d s).2 (optIds (getDefaultAt defer fdefer ro d s).1) := by
+  unfold getDefaultAt
+  split
+  · exact Fr.refl (by simp [optIds])
+  · split
+    · exact Fr.refl (by simp [optIds])
+    · exact getDefault_fr ro d s
+
 /-! ### list traversals -/
 
 theorem mapC_fr (f : Val → Comp) (B : List Nat) (xs : List Val)
@@ -747,9 +756,9 @@ theorem fieldsFF_fr (rec : Ty → Val → Comp) (ro : ROpts) (A : List Nat) (ks 
       simp only
       split
       · exact Fr.refl (by simp [resIdsKV])
-      · have h1 := (getDefault_fr ro f.dflt s).weaken
+      · have h1 := (getDefaultAt_fr false f.defer ro f.dflt s).weaken
           (fun i hi => by rcases List.mem_append.mp hi with h | h; exact hB f (by simp) i h; exact hro i h) (fun _ h => h)
-        cases hg : getDefault ro f.dflt s with
+        cases hg : getDefaultAt false f.defer ro f.dflt s with
         | mk od s1 =>
           rw [hg] at h1
           cases od with
@@ -820,9 +829,9 @@ theorem defaultLoop_fr (ro : ROpts) (A : List Nat) (have_ : List String) (fields
     · exact ih' s
     · split
       · exact Fr.refl (by simp [resIdsKV])
-      · have h1 := (getDefault_fr ro f.dflt s).weaken
+      · have h1 := (getDefaultAt_fr false f.defer ro f.dflt s).weaken
           (fun i hi => by rcases List.mem_append.mp hi with h | h; exact hB f (by simp) i h; exact hro i h) (fun _ h => h)
-        cases hg : getDefault ro f.dflt s with
+        cases hg : getDefaultAt false f.defer ro f.dflt s with
         | mk od s1 =>
           rw [hg] at h1
           cases od with
@@ -1351,29 +1360,38 @@ theorem writeL_eq_self (i : Nat) (f : Kind → List String → List Val → Opti
     simp [writeL, write_eq_self i f v h.1, writeL_eq_self i f vs h.2]
 end
 
+/-- a write that puts into the object, besides what it held, only objects from `S` -/
+def AddsOnly (S : List Nat) (f : Kind → List String → List Val → Option (List String × List Val)) : Prop :=
+  ∀ k ks xs ks' xs', f k ks xs = some (ks', xs') → ∀ j ∈ mutIdsL xs', j ∈ mutIdsL xs ∨ j ∈ S
+
 /-- a write that only puts atoms (or nothing) into the object -/
 def AddsNoIds (f : Kind → List String → List Val → Option (List String × List Val)) : Prop :=
   ∀ k ks xs ks' xs', f k ks xs = some (ks', xs') → ∀ j ∈ mutIdsL xs', j ∈ mutIdsL xs
 
+theorem addsNoIds_only {f : Kind → List String → List Val → Option (List String × List Val)} (h : AddsNoIds f) :
+    AddsOnly [] f := fun k ks xs ks' xs' he j hj => Or.inl (h k ks xs ks' xs' he j hj)
+
 mutual
-theorem write_ids_sub (i : Nat) (f : Kind → List String → List Val → Option (List String × List Val))
-    (hf : AddsNoIds f) (v : Val) : ∀ j ∈ (v.write i f).mutIds, j ∈ v.mutIds := by
+theorem write_ids_sub' (S : List Nat) (i : Nat) (f : Kind → List String → List Val → Option (List String × List Val))
+    (hf : AddsOnly S f) (v : Val) : ∀ j ∈ (v.write i f).mutIds, j ∈ v.mutIds ∨ j ∈ S := by
   match v with
-  | .none => simp [Val.write]
-  | .int _ => simp [Val.write]
-  | .str _ => simp [Val.write]
+  | .none => intro j hj; simp [Val.write, Val.mutIds] at hj
+  | .int _ => intro j hj; simp [Val.write, Val.mutIds] at hj
+  | .str _ => intro j hj; simp [Val.write, Val.mutIds] at hj
   | .node a k ks xs =>
-    have ih := writeL_ids_sub i f hf xs
+    have ih := writeL_ids_sub' S i f hf xs
     intro j hj
     simp only [Val.write] at hj
-    have hsub : ∀ j, j ∈ (Val.node a k ks (writeL i f xs)).mutIds → j ∈ (Val.node a k ks xs).mutIds := by
+    have hsub : ∀ j, j ∈ (Val.node a k ks (writeL i f xs)).mutIds → j ∈ (Val.node a k ks xs).mutIds ∨ j ∈ S := by
       intro j hj
       cases hk : k.mutable with
       | true =>
         simp only [Val.mutIds, hk, if_true] at hj ⊢
         rcases List.mem_cons.mp hj with h | h
-        · simp [h]
-        · exact List.mem_cons_of_mem _ (ih j h)
+        · left; simp [h]
+        · rcases ih j h with h' | h'
+          · exact Or.inl (List.mem_cons_of_mem _ h')
+          · exact Or.inr h'
       | false =>
         simp only [Val.mutIds, hk] at hj ⊢
         exact ih j (by simpa using hj)
@@ -1387,21 +1405,36 @@ theorem write_ids_sub (i : Nat) (f : Kind → List String → List Val → Optio
         rw [hfe] at hj
         simp only at hj
         rcases mutIds_node_sub hj with h | h
-        · simp [Val.mutIds, hk, h]
-        · exact mutIdsL_sub_node (ih j (hf _ _ _ _ _ hfe j h))
+        · left; simp [Val.mutIds, hk, h]
+        · rcases hf _ _ _ _ _ hfe j h with h' | h'
+          · rcases ih j h' with h'' | h''
+            · exact Or.inl (mutIdsL_sub_node h'')
+            · exact Or.inr h''
+          · exact Or.inr h'
     · simp only [hc] at hj
       exact hsub j hj
-theorem writeL_ids_sub (i : Nat) (f : Kind → List String → List Val → Option (List String × List Val))
-    (hf : AddsNoIds f) (xs : List Val) : ∀ j ∈ mutIdsL (writeL i f xs), j ∈ mutIdsL xs := by
+theorem writeL_ids_sub' (S : List Nat) (i : Nat) (f : Kind → List String → List Val → Option (List String × List Val))
+    (hf : AddsOnly S f) (xs : List Val) : ∀ j ∈ mutIdsL (writeL i f xs), j ∈ mutIdsL xs ∨ j ∈ S := by
   match xs with
-  | [] => simp [writeL]
+  | [] => intro j hj; simp [writeL, mutIdsL] at hj
   | v :: vs =>
     intro j hj
     simp only [writeL, mutIdsL, List.mem_append] at hj ⊢
     rcases hj with h | h
-    · exact Or.inl (write_ids_sub i f hf v j h)
-    · exact Or.inr (writeL_ids_sub i f hf vs j h)
+    · rcases write_ids_sub' S i f hf v j h with h' | h'
+      · exact Or.inl (Or.inl h')
+      · exact Or.inr h'
+    · rcases writeL_ids_sub' S i f hf vs j h with h' | h'
+      · exact Or.inl (Or.inr h')
+      · exact Or.inr h'
 end
+
+theorem write_ids_sub (i : Nat) (f : Kind → List String → List Val → Option (List String × List Val))
+    (hf : AddsNoIds f) (v : Val) : ∀ j ∈ (v.write i f).mutIds, j ∈ v.mutIds := by
+  intro j hj
+  rcases write_ids_sub' [] i f (addsNoIds_only hf) v j hj with h | h
+  · exact h
+  · simp at h
 
 /-! ### writes applied to a world -/
 
@@ -1478,8 +1511,8 @@ theorem applyWrites_eq_self (w : World) (ws : List Nat)
     rw [this]
     exact ih (fun j hj => h j (List.mem_cons_of_mem _ hj))
 
-theorem writeAll_rootIds_sub (w : World) (i : Nat) (f : Kind → List String → List Val → Option (List String × List Val))
-    (hf : AddsNoIds f) : ∀ j ∈ (w.writeAll i f).rootIds, j ∈ w.rootIds := by
+theorem writeAll_rootIds_sub' (S : List Nat) (w : World) (i : Nat) (f : Kind → List String → List Val → Option (List String × List Val))
+    (hf : AddsOnly S f) : ∀ j ∈ (w.writeAll i f).rootIds, j ∈ w.rootIds ∨ j ∈ S := by
   intro j hj
   obtain ⟨v, hv, hjv⟩ := mem_mutIdsL.mp hj
   simp only [World.rootVals, World.writeAll, List.mem_filterMap, List.mem_map] at hv
@@ -1488,7 +1521,16 @@ theorem writeAll_rootIds_sub (w : World) (i : Nat) (f : Kind → List String →
   | none => simp at hr0e; subst hr0e; simp at hre
   | some v0 =>
     simp at hr0e; subst hr0e; simp at hre; subst hre
-    exact rootIds_of_root hr0 j (write_ids_sub i f hf v0 j hjv)
+    rcases write_ids_sub' S i f hf v0 j hjv with h | h
+    · exact Or.inl (rootIds_of_root hr0 j h)
+    · exact Or.inr h
+
+theorem writeAll_rootIds_sub (w : World) (i : Nat) (f : Kind → List String → List Val → Option (List String × List Val))
+    (hf : AddsNoIds f) : ∀ j ∈ (w.writeAll i f).rootIds, j ∈ w.rootIds := by
+  intro j hj
+  rcases writeAll_rootIds_sub' [] w i f (addsNoIds_only hf) j hj with h | h
+  · exact h
+  · simp at h
 
 /-! ### the caller's writes insert atoms only -/
 
@@ -1523,26 +1565,41 @@ theorem delKV_ids (k : String) : ∀ (ks : List String) (xs : List Val),
       · exact Or.inl h
       · exact Or.inr (delKV_ids k as xs j h)
 
-theorem act_addsNoIds (act : Act)
-    (h : match act with | .append v => v.mutIds = [] | .add v => v.mutIds = [] | .setkey _ v => v.mutIds = []) :
-    AddsNoIds act.apply := by
+theorem dropLast_ids_sub (xs : List Val) : ∀ j ∈ mutIdsL xs.dropLast, j ∈ mutIdsL xs := by
+  intro j hj
+  obtain ⟨v, hv, h⟩ := mem_mutIdsL.mp hj
+  exact mem_mutIdsL.mpr ⟨v, List.dropLast_subset xs hv, h⟩
+
+/-- a caller's write puts into the target only the objects of the value it inserts -/
+theorem act_addsOnly (act : Act) : AddsOnly act.ids act.apply := by
   intro k ks xs ks' xs' he j hj
   unfold Act.apply at he
   split at he
   · simp only [Option.some.injEq, Prod.mk.injEq] at he
     obtain ⟨_, rfl⟩ := he
-    simp only at h
-    simpa [mutIdsL_append, mutIdsL, h] using hj
+    simpa [mutIdsL_append, mutIdsL, Act.ids] using hj
   · simp only [Option.some.injEq, Prod.mk.injEq] at he
     obtain ⟨_, rfl⟩ := he
-    simp only at h
     split at hj
-    · exact hj
-    · simpa [mutIdsL_append, mutIdsL, h] using hj
+    · exact Or.inl hj
+    · simpa [mutIdsL_append, mutIdsL, Act.ids] using hj
   · simp only [Option.some.injEq] at he
-    simp only at h
     have := setKV_ids _ _ _ _ j (by rw [he]; exact hj)
-    simpa [h] using this
+    simpa [Act.ids] using this
+  · simp only [Option.some.injEq, Prod.mk.injEq] at he
+    obtain ⟨_, rfl⟩ := he
+    simp [mutIdsL] at hj
+  · simp only [Option.some.injEq, Prod.mk.injEq] at he
+    obtain ⟨_, rfl⟩ := he
+    simp [mutIdsL] at hj
+  · simp only [Option.some.injEq, Prod.mk.injEq] at he
+    obtain ⟨_, rfl⟩ := he
+    simp [mutIdsL] at hj
+  · simp only [Option.some.injEq, Prod.mk.injEq] at he
+    obtain ⟨_, rfl⟩ := he
+    exact Or.inl (dropLast_ids_sub _ j hj)
+  · simp only [Option.some.injEq] at he
+    exact Or.inl (delKV_ids _ _ _ j (by rw [he]; exact hj))
   · simp at he
 
 theorem setItemF_ok (fname : String) (v : Val) (hv : v.mutIds = []) : AddsNoIds (setItemF fname v) := by
